@@ -152,12 +152,18 @@ def inline_new_helpers(tree: ast.Module, relpath: str) -> int:
         return 0
     ref = set(ref)
     done = 0
+    all_new_callees: set[str] = set()
 
     def process(container_body, prefix, is_class):
         nonlocal done
         funcs = {s.name: s for s in container_body if isinstance(s, ast.FunctionDef)}
         new = [f for name, f in funcs.items() if (prefix + name) not in ref and name.startswith("_") and not name.startswith("__") and _inlinable(f)]
-        for helper in new:
+        all_new_callees.clear()
+        all_new_callees.update({f"self.{f.name}" for f in new} if is_class else {f.name for f in new})
+        # two passes: a helper whose call was hoisted out of another helper's argument list in the first pass is inlined in the second
+        for helper in new + new:
+            if helper not in container_body:
+                continue
             static = _is_static(helper)
             if static and not is_class:
                 continue
@@ -199,6 +205,18 @@ def inline_new_helpers(tree: ast.Module, relpath: str) -> int:
                     call, form = st.value, "assign"
                 elif isinstance(st, ast.Return) and isinstance(st.value, ast.Call) and path_of(st.value.func) in callee:
                     call, form = st.value, "return"
+                if call is not None and not call.keywords:
+                    # `h(g(...), x)` with g another new helper: `t = g(...)` is evaluated first either way (the arguments before it are
+                    # names or constants), so it is hoisted into a temporary and both calls become inlinable statements
+                    for k_, a_ in enumerate(call.args):
+                        if isinstance(a_, ast.Call) and path_of(a_.func) in all_new_callees and all(isinstance(b_, (ast.Name, ast.Constant)) for b_ in call.args[:k_]):
+                            tmp = f"hoisted__{helper.name.strip('_')}_{k_}"
+                            body.insert(i, ast.copy_location(ast.Assign(targets=[ast.Name(id=tmp, ctx=ast.Store())], value=a_, lineno=st.lineno), st))
+                            call.args[k_] = ast.copy_location(ast.Name(id=tmp, ctx=ast.Load()), a_)
+                            ast.fix_missing_locations(body[i])
+                            i += 1
+                            st = body[i]
+                            break
                 if call is not None:
                     tgt_names = {x.id for t in (st.targets if isinstance(st, ast.Assign) else []) for x in ast.walk(t) if isinstance(x, ast.Name)}
                     caller_names = ({n.id for n in ast.walk(fn) if isinstance(n, ast.Name) and isinstance(n.ctx, ast.Store)} | {a.arg for a in fn.args.args + fn.args.kwonlyargs}) - tgt_names
@@ -717,12 +735,20 @@ def fold_new_fill_loops(tree: ast.Module, relpath: str) -> int:
         if q not in all_units:
             continue
         known = {w[0] for w in ref.get(q, [])}
-        new = set(localnames.locals_of(fn)) - known
+        # also a name that the reference function binds to a list comprehension (there the loop form *is* the notational variant)
+        ref_lc = set((localnames.reference().get("__spellings__", {}).get(relpath, {}).get(q) or {}).get("lc", []))
+        new = (set(localnames.locals_of(fn)) - known) | ref_lc
         if not new:
             continue
         counts = {}
+        # occurrences of a name outside the comprehensions / generator expressions that bind it themselves (those are separate scopes)
+        own_scope = set()
+        for comp in ast.walk(fn):
+            if isinstance(comp, (ast.ListComp, ast.SetComp, ast.DictComp, ast.GeneratorExp)):
+                bound = {x.id for g in comp.generators for x in ast.walk(g.target) if isinstance(x, ast.Name)}
+                own_scope |= {id(x) for x in ast.walk(comp) if isinstance(x, ast.Name) and x.id in bound}
         for n in ast.walk(fn):
-            if isinstance(n, ast.Name):
+            if isinstance(n, ast.Name) and id(n) not in own_scope:
                 counts[n.id] = counts.get(n.id, 0) + 1
         for parent in ast.walk(fn):
             for fld in ("body", "orelse", "finalbody"):
@@ -733,10 +759,12 @@ def fold_new_fill_loops(tree: ast.Module, relpath: str) -> int:
                 while i + 1 < len(blk):
                     a, lp = blk[i], blk[i + 1]
                     i += 1
-                    if not (isinstance(a, ast.Assign) and len(a.targets) == 1 and isinstance(a.targets[0], ast.Name) and a.targets[0].id in new
-                            and isinstance(a.value, ast.List) and not a.value.elts):
+                    a_t = a.targets[0] if isinstance(a, ast.Assign) and len(a.targets) == 1 else a.target if isinstance(a, ast.AnnAssign) else None
+                    if not (isinstance(a_t, ast.Name) and a_t.id in new and isinstance(a.value, ast.List) and not a.value.elts):
                         continue
-                    acc = a.targets[0].id
+                    acc = a_t.id
+                    if acc in ref_lc and sum(1 for x in ast.walk(fn) if isinstance(x, ast.Name) and x.id == acc and isinstance(x.ctx, ast.Store)) != 1:
+                        continue
                     if not (isinstance(lp, ast.For) and not lp.orelse and isinstance(lp.target, ast.Name) and lp.target.id != acc):
                         continue
                     var = lp.target.id
@@ -755,11 +783,15 @@ def fold_new_fill_loops(tree: ast.Module, relpath: str) -> int:
                         continue
                     if any(isinstance(x, (ast.Yield, ast.YieldFrom, ast.Await, ast.NamedExpr, ast.Lambda)) for p_ in parts for x in ast.walk(p_)):
                         continue
-                    inside = sum(1 for x in ast.walk(lp) if isinstance(x, ast.Name) and x.id == var)
+                    inside = sum(1 for x in ast.walk(lp) if isinstance(x, ast.Name) and x.id == var and id(x) not in own_scope)
                     if counts.get(var, 0) != inside:
                         continue  # the loop variable is read after the loop: a comprehension would not leak it
                     comp = ast.ListComp(elt=elt, generators=[ast.comprehension(target=lp.target, iter=lp.iter, ifs=conds, is_async=0)])
-                    a.value = ast.copy_location(comp, a.value)
+                    if isinstance(a, ast.AnnAssign):
+                        # a local's annotation has no run-time meaning: the folded statement is the plain assignment the loop replaced
+                        blk[blk.index(a)] = ast.copy_location(ast.Assign(targets=[a.target], value=ast.copy_location(comp, a.value), lineno=a.lineno), a)
+                    else:
+                        a.value = ast.copy_location(comp, a.value)
                     blk.remove(lp)
                     done += 1
         ast.fix_missing_locations(fn)
@@ -852,8 +884,12 @@ def spelling_record(fn: ast.FunctionDef) -> dict:
             whiles.add(_txt(n.test))
         elif _is_minmax2(n):
             mms.add(_txt(n))
+    lcs = {t.id for n in ast.walk(fn) if isinstance(n, (ast.Assign, ast.AnnAssign)) and isinstance(getattr(n, "value", None), ast.ListComp)
+           for t in (n.targets if isinstance(n, ast.Assign) else [n.target]) if isinstance(t, ast.Name)}
+    sds = {_txt(n) for n in ast.walk(fn) if isinstance(n, ast.Call) and isinstance(n.func, ast.Attribute) and n.func.attr == "setdefault" and len(n.args) == 2}
     return {"cmp": sorted(cmps), "aug": sorted(augs), "if": sorted(ifs), "mm": sorted(mms),
-            "ifexp": sorted(ifexps), "ifstmt": sorted(ifstmts), "chain": sorted(chains), "while": sorted(whiles)}
+            "ifexp": sorted(ifexps), "ifstmt": sorted(ifstmts), "chain": sorted(chains), "while": sorted(whiles),
+            "lc": sorted(lcs), "sd": sorted(sds)}
 
 
 def _is_minmax2(n) -> bool:
@@ -903,13 +939,26 @@ def flatten_else(tree: ast.Module) -> int:
     return n_done
 
 
+def _plain_path(t) -> bool:
+    """a name or a dotted attribute path rooted in a name (`x`, `self.a`, `self.a.b`)"""
+    while isinstance(t, ast.Attribute):
+        t = t.value
+    return isinstance(t, ast.Name)
+
+
 def canonical_forms(tree: ast.Module) -> tuple[int, int]:
     """Two more canonical forms, applied to every analysed module (like flatten_else; identities on the meaning of the code):
-    (1) `a, b = x, y` with plain local names on the left and a tuple display of the same length on the right is split into `a = x` / `b = y`
+    (1) `a, b = x, y` with plain names or attribute paths (`self.a`) on the left and a tuple display of the same length on the right is split into `a = x` / `b = y`
     when no later value mentions an earlier target and no later value contains a call (so evaluating it cannot observe the earlier binding
     through a closure) — x is evaluated before y either way;  (2) `not (a and b)` / `not (a or b)` is distributed to `not a or not b` /
     `not a and not b` (same operands evaluated in the same order with the same short-circuit).  Returns (splits, distributions)."""
     n_split = n_dist = 0
+    captured = {x.id for sc in ast.walk(tree) if isinstance(sc, (ast.Lambda, ast.GeneratorExp, ast.ListComp, ast.SetComp, ast.DictComp)) for x in ast.walk(sc) if isinstance(x, ast.Name)}
+    fns = [f for f in ast.walk(tree) if isinstance(f, (ast.FunctionDef, ast.AsyncFunctionDef))]
+    for f in fns:
+        for inner in ast.walk(f):
+            if inner is not f and isinstance(inner, (ast.FunctionDef, ast.AsyncFunctionDef)):
+                captured |= {x.id for x in ast.walk(inner) if isinstance(x, ast.Name)}
 
     class D(ast.NodeTransformer):
         def visit_UnaryOp(self, n):
@@ -923,19 +972,25 @@ def canonical_forms(tree: ast.Module) -> tuple[int, int]:
 
     def splittable(st):
         if not (isinstance(st, ast.Assign) and len(st.targets) == 1 and isinstance(st.targets[0], ast.Tuple) and isinstance(st.value, ast.Tuple)
-                and len(st.targets[0].elts) == len(st.value.elts) >= 2 and all(isinstance(t, ast.Name) for t in st.targets[0].elts)
+                and len(st.targets[0].elts) == len(st.value.elts) >= 2 and all(_plain_path(t) for t in st.targets[0].elts)
                 and not any(isinstance(v, ast.Starred) for v in st.value.elts)):
             return False
-        names = [t.id for t in st.targets[0].elts]
-        if len(set(names)) != len(names):
+        names = [_txt(t) for t in st.targets[0].elts]
+        if len(set(names)) != len(names) or any(a != b and (a.startswith(b + ".") or b.startswith(a + ".")) for a in names for b in names):
             return False
         for j, v in enumerate(st.value.elts):
             if j == 0:
                 continue
-            if any(isinstance(x, (ast.Call, ast.Yield, ast.YieldFrom, ast.Await, ast.NamedExpr, ast.Lambda)) for x in ast.walk(v)):
+            if any(isinstance(x, (ast.Yield, ast.YieldFrom, ast.Await, ast.NamedExpr, ast.Lambda)) for x in ast.walk(v)):
                 return False
-            if any(isinstance(x, ast.Name) and x.id in names[:j] for x in ast.walk(v)):
+            # a call in a later value could observe an earlier binding only through a closure over a local name (never for an attribute:
+            # there the store itself is visible) — allowed when every earlier target is a plain name that no nested scope mentions
+            if any(isinstance(x, ast.Call) for x in ast.walk(v)) and not all(isinstance(t, ast.Name) and t.id not in captured for t in st.targets[0].elts[:j]):
                 return False
+            # a later value must not read an earlier target (a name, or an attribute path `self.x` / anything below it)
+            for x in ast.walk(v):
+                if isinstance(x, (ast.Name, ast.Attribute)) and _plain_path(x) and any(_txt(x) == n_ or _txt(x).startswith(n_ + ".") for n_ in names[:j]):
+                    return False
         # an earlier value must not read a later target either (it would see the old binding in both forms — fine) — nothing to check
         return True
 
@@ -979,6 +1034,7 @@ def restore_spellings(tree: ast.Module, relpath: str) -> int:
             continue
         rc, ra, ri, rm = set(r["cmp"]), set(r["aug"]), set(r["if"]), set(r.get("mm", []))
         rx, rs, rch, rw = set(r.get("ifexp", [])), set(r.get("ifstmt", [])), set(r.get("chain", [])), set(r.get("while", []))
+        rsd = set(r.get("sd", []))
 
         class T(ast.NodeTransformer):
             def visit_Compare(self, n):
@@ -1101,6 +1157,48 @@ def restore_spellings(tree: ast.Module, relpath: str) -> int:
             i = 0
             while i < len(b):
                 st = b[i]
+                # `if K not in D: D[K] = V` followed by a statement that reads `D[K]`, for the reference's `D.setdefault(K, V)` there
+                if isinstance(st, ast.If) and not st.orelse and len(st.body) == 1 and isinstance(st.test, ast.Compare) and len(st.test.ops) == 1 \
+                        and isinstance(st.test.ops[0], ast.NotIn) and isinstance(st.body[0], ast.Assign) and len(st.body[0].targets) == 1 \
+                        and isinstance(st.body[0].targets[0], ast.Subscript) and i + 1 < len(b):
+                    K, D, tgt = st.test.left, st.test.comparators[0], st.body[0].targets[0]
+                    if _txt(tgt.value) == _txt(D) and _txt(tgt.slice) == _txt(K):
+                        sd_call = ast.Call(func=ast.Attribute(value=D, attr="setdefault", ctx=ast.Load()), args=[K, st.body[0].value], keywords=[])
+                        if _txt(sd_call) in rsd:
+                            want = _txt(ast.Subscript(value=D, slice=K, ctx=ast.Load()))
+                            hits = [x for x in ast.walk(b[i + 1]) if isinstance(x, ast.Subscript) and isinstance(x.ctx, ast.Load) and _txt(x) == want]
+                            if len(hits) == 1 and not isinstance(b[i + 1], (ast.If, ast.For, ast.While, ast.Try, ast.With)):
+                                class R1(ast.NodeTransformer):
+                                    def visit_Subscript(self, n):
+                                        return ast.copy_location(sd_call, n) if n is hits[0] else self.generic_visit(n)
+                                b[i + 1] = R1().visit(b[i + 1])
+                                n_done += 1
+                                i += 1
+                                continue
+                # the other direction: `D.setdefault(K, V)` (as a statement, or as the receiver of one method call) where the reference tests
+                # `K not in D` in an if statement and has no such setdefault — V is a display / constructor call without arguments / name
+                sdn = None
+                if isinstance(st, ast.Expr) and isinstance(st.value, ast.Call):
+                    c0 = st.value
+                    if isinstance(c0.func, ast.Attribute) and c0.func.attr == "setdefault" and len(c0.args) == 2 and not c0.keywords:
+                        sdn, outer = c0, None
+                    elif isinstance(c0.func, ast.Attribute) and isinstance(c0.func.value, ast.Call) and isinstance(c0.func.value.func, ast.Attribute) \
+                            and c0.func.value.func.attr == "setdefault" and len(c0.func.value.args) == 2 and not c0.func.value.keywords:
+                        sdn, outer = c0.func.value, c0
+                if sdn is not None and _txt(sdn) not in rsd:
+                    D, K, V = sdn.func.value, sdn.args[0], sdn.args[1]
+                    cheap = isinstance(V, (ast.Name, ast.Constant)) or (isinstance(V, (ast.List, ast.Set, ast.Tuple)) and not V.elts) or (isinstance(V, ast.Dict) and not V.keys) \
+                        or (isinstance(V, ast.Call) and isinstance(V.func, ast.Name) and V.func.id in ("set", "dict", "list", "deque") and not V.args and not V.keywords)
+                    test = ast.Compare(left=K, ops=[ast.NotIn()], comparators=[D])
+                    if cheap and _txt(test) in rs:
+                        store = ast.Assign(targets=[ast.Subscript(value=D, slice=K, ctx=ast.Store())], value=V, lineno=st.lineno)
+                        out.append(ast.copy_location(ast.If(test=test, body=[ast.copy_location(store, st)], orelse=[]), st))
+                        if outer is not None:
+                            outer.func.value = ast.copy_location(ast.Subscript(value=copy.deepcopy(D), slice=copy.deepcopy(K), ctx=ast.Load()), sdn)
+                            out.append(st)
+                        n_done += 1
+                        i += 1
+                        continue
                 if isinstance(st, ast.If):
                     t = st.test
                     neg = _negated(t)
@@ -1113,8 +1211,8 @@ def restore_spellings(tree: ast.Module, relpath: str) -> int:
                         return None
 
                     def one_assign(body):
-                        return len(body) == 1 and isinstance(body[0], ast.Assign) and len(body[0].targets) == 1 and isinstance(body[0].targets[0], ast.Name)
-                    if st.orelse and one_assign(st.body) and one_assign(st.orelse) and st.body[0].targets[0].id == st.orelse[0].targets[0].id:
+                        return len(body) == 1 and isinstance(body[0], ast.Assign) and len(body[0].targets) == 1 and _plain_path(body[0].targets[0])
+                    if st.orelse and one_assign(st.body) and one_assign(st.orelse) and _txt(st.body[0].targets[0]) == _txt(st.orelse[0].targets[0]):
                         val = pick(st.body[0].value, st.orelse[0].value)
                         if val is not None:
                             out.append(ast.copy_location(ast.Assign(targets=st.body[0].targets, value=val, lineno=st.lineno), st))
@@ -1129,6 +1227,28 @@ def restore_spellings(tree: ast.Module, relpath: str) -> int:
                             n_done += 1
                             i += 2
                             continue
+                # the other direction: `x = a if c else b` / `return a if c else b` where the reference function has no such conditional
+                # expression but an `if c:` (or `if not c:`) statement — written back as statements
+                if (isinstance(st, ast.Assign) and len(st.targets) == 1 and _plain_path(st.targets[0]) or isinstance(st, ast.Return)) \
+                        and isinstance(st.value, ast.IfExp) and _txt(st.value) not in rx:
+                    t = st.value.test
+                    neg = _negated(t)
+                    if _txt(t) in rs:
+                        c_, a_, b_ = t, st.value.body, st.value.orelse
+                    elif neg is not None and _txt(neg) in rs:
+                        c_, a_, b_ = neg, st.value.orelse, st.value.body
+                    else:
+                        c_ = None
+                    if c_ is not None:
+                        n_done += 1
+                        if isinstance(st, ast.Return):
+                            out.append(ast.copy_location(ast.If(test=c_, body=[ast.copy_location(ast.Return(value=a_), st)], orelse=[]), st))
+                            out.append(ast.copy_location(ast.Return(value=b_), st))
+                        else:
+                            out.append(ast.copy_location(ast.If(test=c_, body=[ast.copy_location(ast.Assign(targets=st.targets, value=a_, lineno=st.lineno), st)],
+                                                                orelse=[ast.copy_location(ast.Assign(targets=[copy.deepcopy(st.targets[0])], value=b_, lineno=st.lineno), st)]), st))
+                        i += 1
+                        continue
                 if in_loop and isinstance(st, ast.If) and not st.orelse and len(st.body) == 1 and isinstance(st.body[0], ast.Continue) and i + 1 < len(b) \
                         and _txt(st.test) not in ri:
                     neg = _negated(st.test)
